@@ -448,8 +448,26 @@ func (fc *FuncCtx) unop(fr *Frame, st *State, x *ssa.UnOp) {
 		}
 		addr := fc.value(fr, x.X)
 		if addr.LV == nil {
-			if _, isStruct := x.Type().Underlying().(*types.Struct); isStruct {
-				unsupp("load of a struct value at %s", fc.p.pos(x.Pos()))
+			if sty, isStruct := x.Type().Underlying().(*types.Struct); isStruct {
+				if addr.T == nil {
+					unsupp("load of a struct value at %s", fc.p.pos(x.Pos()))
+				}
+				// a struct value is an immutable snapshot of the scalar fields (one tuple
+				// component per field; fields of unsupported type carry no value). It can
+				// only be handed to a callee with an assumed contract, which sees the
+				// fields as <param>_<Field>.
+				fc.addObl(fr, st, "nil", fc.srcOf(x), Neq(addr.T, IntLit(0)), x.Pos(), "nil pointer dereference")
+				var tup []Val
+				for i := 0; i < sty.NumFields(); i++ {
+					f := sty.Field(i)
+					if _, nested := f.Type().Underlying().(*types.Struct); nested || sortOf(f.Type()) == nil {
+						tup = append(tup, Val{})
+						continue
+					}
+					tup = append(tup, Val{T: Select(st.H(fc.p, fc.p.fieldHeap(x.Type(), f)), addr.T)})
+				}
+				fr.regs[x] = Val{Tup: tup}
+				return
 			}
 			unsupp("load through non-lvalue at %s", fc.p.pos(x.Pos()))
 		}
